@@ -183,12 +183,39 @@ type AnyList []any
 type world struct {
 	toks   map[int]*Tok
 	store  *flyt.SharedStore
+	conts  map[int]any
 	wmu    sync.Mutex
 	writes int
 	ctx    context.Context
 }
 
-func newWorld() *world { return &world{toks: map[int]*Tok{}} }
+func newWorld() *world { return &world{toks: map[int]*Tok{}, conts: map[int]any{}} }
+
+// cont: the container (a map[string]any for even ids, a []any for odd ones) standing for token id;
+// one object per id: a callback that is handed a COPY of it sees something else
+func (w *world) cont(id int) any {
+	if c, ok := w.conts[id]; ok {
+		return c
+	}
+	var c any
+	if id%2 == 0 {
+		c = map[string]any{"id": id}
+	} else {
+		c = []any{id, "payload"}
+	}
+	w.conts[id] = c
+	return c
+}
+
+func (w *world) contID(x any) (int, bool) {
+	rv := reflect.ValueOf(x)
+	for id, c := range w.conts {
+		if reflect.ValueOf(c).Pointer() == rv.Pointer() && reflect.ValueOf(c).Kind() == rv.Kind() {
+			return id, true
+		}
+	}
+	return 0, false
+}
 
 func (w *world) tok(id int) *Tok {
 	if t, ok := w.toks[id]; ok {
@@ -245,6 +272,8 @@ func (w *world) realise(v Val) any {
 			return fmt.Sprintf("t%d", v.N)
 		case "named":
 			return TokInt(v.N)
+		case "cont":
+			return w.cont(v.N)
 		default:
 			return w.tok(v.N)
 		}
@@ -363,6 +392,15 @@ func (w *world) encode(x any) Val {
 			l[i] = w.encodeRes(r)
 		}
 		return vSl(true, "", l)
+	}
+	switch x.(type) {
+	case map[string]any, []any:
+		if id, ok := w.contID(x); ok {
+			return Val{T: "tok", N: id, Shape: "cont"}
+		}
+		if _, isMap := x.(map[string]any); isMap {
+			return Val{T: "other"}
+		}
 	}
 	rv := reflect.ValueOf(x)
 	if rv.Kind() == reflect.Slice {
